@@ -92,6 +92,24 @@ func (w *world) goValue(g sx.S) interface{} {
 			out = append(out, w.goValue(x))
 		}
 		return out
+	case "tstrs":
+		out := []string{}
+		for _, x := range l[1:] {
+			out = append(out, "s"+x.(string))
+		}
+		return out
+	case "tints":
+		out := []int{}
+		for _, x := range l[1:] {
+			out = append(out, sx.Int(x))
+		}
+		return out
+	case "tbools":
+		out := []bool{}
+		for _, x := range l[1:] {
+			out = append(out, x.(string) != "0")
+		}
+		return out
 	case "lres":
 		out := &lres{}
 		for _, x := range l[1:] {
